@@ -838,7 +838,7 @@ class Summary(object):
         return conj(pc, neg(disj(*gone))) if gone else pc
 
     def assign_name(self, name, alts, env, pc):
-        if name in _mutated_locals(self._cur_frame.func):
+        if name in _mutated_locals(self._cur_frame.func) or name in getattr(self, '_dictcomp_names', ()):
             # a container that is filled in place keeps its name (its contents are not tracked)
             env[name] = [(True, ast.Name(id=name, ctx=ast.Load()))]
             return
